@@ -210,6 +210,21 @@ func TestC15(t *testing.T) {
 				mutated[key] = true
 				hist = append(hist, "mutate")
 			}
+			if gen.Pick(rt, "use_constructors", 3) == 0 {
+				x := rapid.Uint64().Draw(rt, "ctor_args")
+				c15UseConstructors(x)
+				for k := range first {
+					mutated[k] = true // the constructors write into what their lookups returned
+				}
+				hist = append(hist, fmt.Sprintf("constructors(%#x)", x))
+			}
+		}
+		for _, name := range names {
+			cl, fi, ln, hm, _ := of.VerifRegistryEntry(name)
+			if want, info, ok := c15Expect(name, false); ok && (cl != want.class || fi != want.field || hm || (!info.Variable && ln != want.length) || (info.Variable && (ln < 1 || int(ln) > info.Width))) {
+				c.Report(rt, "C15|registry|entry-changed", fmt.Sprintf("after history %v the stored entry of %s is class %#x field %d length %d mask %v", hist, name, cl, fi, ln, hm), hist)
+				return
+			}
 		}
 		if nt {
 			c.NonTrivial(ev.HashStr(hist...))
@@ -225,17 +240,41 @@ func TestC15(t *testing.T) {
 func c15Word(w uint32) (string, string) {
 	var b [4]byte
 	binary.BigEndian.PutUint32(b[:], w)
-	var f of.MatchField
-	if err := f.UnmarshalHeader(b[:]); err != nil {
-		return "C15|UnmarshalHeader|error", fmt.Sprintf("word %#08x: %v", w, err)
-	}
-	if f.Class != uint16(w>>16) || f.Field != uint8(w>>9)&0x7f || f.HasMask != (w>>8&1 == 1) || f.Length != uint8(w) {
-		return "C15|UnmarshalHeader|value-mismatch", fmt.Sprintf("word %#08x unpacked to class %#x field %d mask %v length %d", w, f.Class, f.Field, f.HasMask, f.Length)
-	}
-	if got := f.MarshalHeader(); got != w {
-		return "C15|MarshalHeader|not-inverse", fmt.Sprintf("word %#08x -> %+v -> %#08x", w, hdrOf(&f), got)
+	// unpack into a fresh receiver and into one that held the complement of every bit before (a receiver that is
+	// reused, e.g. the result of a masked lookup, must not keep anything of its previous header)
+	for i, f := range []of.MatchField{{}, {Class: ^uint16(w >> 16), Field: ^uint8(w>>9) & 0x7f, HasMask: w>>8&1 == 0, Length: ^uint8(w)}} {
+		recv := []string{"fresh", "reused"}[i]
+		if err := f.UnmarshalHeader(b[:]); err != nil {
+			return "C15|UnmarshalHeader|error", fmt.Sprintf("word %#08x: %v", w, err)
+		}
+		if f.Class != uint16(w>>16) || f.Field != uint8(w>>9)&0x7f || f.HasMask != (w>>8&1 == 1) || f.Length != uint8(w) {
+			return "C15|UnmarshalHeader|value-mismatch|" + recv, fmt.Sprintf("word %#08x unpacked (%s receiver) to class %#x field %d mask %v length %d", w, recv, f.Class, f.Field, f.HasMask, f.Length)
+		}
+		if got := f.MarshalHeader(); got != w {
+			return "C15|MarshalHeader|not-inverse|" + recv, fmt.Sprintf("word %#08x -> %+v -> %#08x (%s receiver)", w, hdrOf(&f), got, recv)
+		}
 	}
 	return "", ""
+}
+
+// c15UseConstructors calls the library's own users of the registry: the match-field constructors that look a header
+// up by name and then fill it in. They must work on copies too.
+func c15UseConstructors(x uint64) {
+	idx := int(x % 8)
+	data := []byte{byte(x), byte(x >> 8), byte(x >> 16), byte(x >> 24)}
+	if x&1 == 0 {
+		of.NewTunMetadataField(idx, data, nil)
+	} else {
+		of.NewTunMetadataField(idx, data, []byte{0xff, 0xff, 0, 0})
+	}
+	st := of.NewCTStates()
+	st.SetNew()
+	of.NewCTStateMatchField(st)
+	of.NewCTZoneMatchField(uint16(x))
+	of.NewCTMarkMatchField(uint32(x), nil)
+	of.NewRegMatchField(int(x%16), uint32(x), of.NewNXRange(0, 15))
+	of.NewMatchField("NXM_NX_REG"+fmt.Sprint(x%16), uint32(x&0xff), 4, 8)
+	of.NewMatchField("NXM_NX_XXREG"+fmt.Sprint(x%4), uint64(x), 64, 64)
 }
 
 func TestC15Words(t *testing.T) {
@@ -344,6 +383,9 @@ func TestC15Race(t *testing.T) {
 						mu.Unlock()
 					}
 					scribble(f)
+					if i%8 == 3 {
+						c15UseConstructors(x)
+					}
 					if i%16 == 0 {
 						runtime.Gosched()
 					}
